@@ -9,13 +9,14 @@ The scheduler records the choice list (thread label / action name, line) of ever
 
 from __future__ import annotations
 
+import os
 import sys
 import threading
 import time
 
 
 class Sched:
-    def __init__(self, chooser, files, quantum=0.004, max_steps=1500, idle_limit=0.15):
+    def __init__(self, chooser, files, quantum=0.004, max_steps=1500, idle_limit=4.0):
         self.chooser = chooser
         self.files = set(files)
         self.quantum = quantum
@@ -36,13 +37,16 @@ class Sched:
         self.base_threads = set()
         self.pending_labels = []
         self.idle_hint = 0
+        self.uncertain = False  # the run ended by a watchdog (time / step budget), not by established quiescence
+        self.probes = 0
         self.release = False  # set by the harness after judging: simulated blocking calls give up
 
     def wait_until_step(self, n):
         """used by harness threads (outside the controlled files) to enter the game late; gives up as soon as nothing else can move"""
         h = self.idle_hint
-        while self.step < n and not self.stop and self.idle_hint == h:
-            time.sleep(0.0005)
+        with self.cv:
+            while self.step < n and not self.stop and self.idle_hint == h:
+                self.cv.wait(0.05)
 
     # ---- labels: deterministic names for threads in creation order ("h0", "h1" for harness threads, "w0", "w1" ... for workers)
     def label(self, tid):
@@ -99,6 +103,32 @@ class Sched:
         if not self.stop:
             self.park(-1)
 
+    # ---- quiescence: decided on the kernel's thread states, not on elapsed time
+    def all_asleep(self, threads):
+        """True iff no thread of this process other than the scheduler (and the pre-existing ones) is running or runnable.  The states
+        are read by a child process while the scheduler thread is blocked (GIL released), so threads that merely wait for the
+        interpreter lock do not look asleep because of the observer."""
+        import subprocess
+
+        me = threading.get_native_id()
+        skip = {t.native_id for t in self.base_threads} | {me}
+        try:
+            out = subprocess.run(["sh", "-c", f"cat /proc/{os.getpid()}/task/*/stat 2>/dev/null"], capture_output=True, text=True, timeout=5).stdout
+        except Exception:  # noqa
+            return False
+        self.probes += 1
+        for line in out.splitlines():
+            try:
+                tid = int(line.split(" ", 1)[0])
+                state = line.rsplit(")", 1)[1].split()[0]
+            except (ValueError, IndexError):
+                continue
+            if tid in skip:
+                continue
+            if state in ("R", "D"):
+                return False
+        return True
+
     # ---- main loop
     def run(self, threads, budget=20.0):
         t_end = time.time() + budget
@@ -125,14 +155,37 @@ class Sched:
                         if not alive and not others:
                             break
                         self.idle_hint += 1
+                        self.cv.notify_all()
                         if idle_since is None:
                             idle_since = time.time()
+                            asleep_seen = 0
                         elif time.time() - idle_since > self.idle_limit:
+                            # watchdog: quiescence could not be established -> the end state is not judged for liveness
+                            self.stalled = True
+                            self.uncertain = True
+                            break
+                        need_probe = time.time() - idle_since > 0.01
+                        if not need_probe:
+                            self.cv.wait(0.004)
+                            continue
+                    else:
+                        need_probe = False
+                        idle_since = None
+                if need_probe:
+                    # outside the scheduler lock: threads may park meanwhile
+                    if self.all_asleep(threads):
+                        with self.cv:
+                            if not self.parked and not self.env_actions():
+                                asleep_seen += 1
+                        if asleep_seen >= 2:
                             self.stalled = True
                             break
-                        self.cv.wait(0.005)
-                        continue
-                    idle_since = None
+                        time.sleep(0.01)
+                    else:
+                        asleep_seen = 0
+                        time.sleep(0.005)
+                    continue
+                with self.cv:
                     kind, obj, name, line = self.chooser(self, enabled)
                     self.step += 1
                     self.trace.append((name, line))
@@ -143,6 +196,8 @@ class Sched:
                         self.cv.notify_all()
                 if kind == "e":
                     obj()
+            else:
+                self.uncertain = True  # time or step budget exhausted
         finally:
             with self.cv:
                 self.stop = True
